@@ -71,7 +71,13 @@ def gen_case(seed, tier):
     nested_ok = rng.random() < 0.6
     if not nested_ok:
         names = [n for n in names if n not in ("sub2.sub", "a.sub2.sub")]
-    base = Z.base_load(rng, rng.choice([2, 5, 10]), names, TYPES)
+    wide = rng.random() < 0.25
+    if wide:
+        # many sibling cuts: the delegation index (and the node map) grow beyond one B-tree node, so
+        # versions share inner nodes and a writer's insertions run through nodes an older version owns
+        names = names + [f"d{i:02d}" for i in range(rng.choice([10, 16, 24]))]
+        TYPES = ["NS", "NS", "NS"] + list(TYPES)
+    base = Z.base_load(rng, rng.choice([20, 40]) if wide else rng.choice([2, 5, 10]), names, TYPES)
     head, tail = base[:2], base[2:]
     rng.shuffle(tail)
     if rng.random() < 0.3:
